@@ -107,6 +107,7 @@ def nontrivial(case):
 
 
 def tally(rep, case, impl_res, ans):
+    rep.count('probe_dir_names:%s/%s' % (case.get('dirnames', 'idx'), case.get('dirkind', 'path')))
     rep.count('probes:%d' % len(case['probes']))
     P = case['probes']
     if len({len(p['channel_map']) for p in P}) > 1:
